@@ -301,10 +301,15 @@ class Report:
                 if exc_ok is not None and exc_ok(p):
                     self.add(Ob(name + suffix + "/raises", kind, PROVED, "eval", 0, f"raises {type(p.exc).__name__} as specified"))
                     continue
-                wit = find_witness(R.const(0), R.const(1), list(pre) + list(p.pc)) if p.pc else {"_note": "all inputs"}
+                wit = find_witness(R.const(0), R.const(1), list(pre) + list(p.pc))
                 wit.pop("_lhs", None), wit.pop("_rhs", None)
                 o = Ob(name + suffix + "/no-exception", kind, REFUTED, "explore", 0, f"{type(p.exc).__name__}: {p.exc}", wit or {"_note": "path condition: " + "; ".join(map(showb, p.pc))[:300]})
                 self._native(o, name, case, sy, None)
+                if not o.replay.get("confirmed"):
+                    # the exception does not reproduce on the real code with floats: it is an
+                    # artefact of symbolic execution (engine limit) -> undecided, never a violation
+                    o.status = UNDECIDED
+                    o.detail = "exception under symbolic execution not reproduced natively: " + o.detail
                 self.add(o)
                 continue
             for sub, got, exp in _triples(p.result):
